@@ -652,4 +652,46 @@ Proof.
   - rewrite Hm, skipn_length. unfold pushed. lia.
 Qed.
 
+(* ------------------------------------------------------------------ a life continued on a reloaded object *)
+Lemma astep_closed ml (A : astate) o :
+  aclosed A = true -> aopen A <> None ->
+  aP (astep ml A o) = aP A /\ aclosed (astep ml A o) = true /\ aopen (astep ml A o) = aopen A /\
+  (asaved A <> None -> asaved (astep ml A o) = asaved A).
+Proof.
+  intros Hc Ho. destruct A as [P ao sv cl]. cbn in *. subst cl.
+  destruct ao as [L|]; [|contradiction].
+  destruct o; cbn; auto. destruct sv; cbn; auto. repeat split; auto. intros H; contradiction.
+Qed.
+Lemma arun_closed ml (ops : list op) : forall A,
+  aclosed A = true -> aopen A <> None ->
+  aP (arun ml A ops) = aP A /\ aclosed (arun ml A ops) = true /\ aopen (arun ml A ops) = aopen A /\
+  (asaved A <> None -> asaved (arun ml A ops) = asaved A).
+Proof.
+  induction ops as [|o r IH]; intros A Hc Ho; cbn; [auto|].
+  destruct (@astep_closed ml A o Hc Ho) as (E1 & E2 & E3 & E4).
+  assert (Ho' : aopen (astep ml A o) <> None) by (rewrite E3; exact Ho).
+  destruct (IH (astep ml A o) E2 Ho') as (F1 & F2 & F3 & F4).
+  unfold arun in *. rewrite F1, F2, F3, E1, E3. repeat split; auto.
+  intros H. rewrite F4 by (rewrite (E4 H); exact H). auto.
+Qed.
+
+(* what the invariant says about misuse, for any state *)
+Lemma misuse_under_inv fs0 ml A (w : world) :
+  Inv fs0 ml A w ->
+  (aclosed A = true -> forall x, step w (Add x) = (w, OErr ERuntime)) /\
+  (opened A = true -> step w Open = (w, OErr ERuntime)) /\
+  (opened A = true -> asaved A <> None -> forall p, step w (SaveParams p) = (w, OErr EFileExists)) /\
+  (aclosed A = true -> step w Close = (w, ODone)).
+Proof.
+  intros HI. pose proof (inv_closed HI) as Ec. pose proof (inv_fname HI) as Ef. pose proof (inv_fs HI) as Hfs.
+  destruct w as [fs h]. cbn [fst snd] in *. repeat split.
+  - intros H x. cbn. now rewrite Ec, H.
+  - intros H. cbn. now rewrite Ef, H.
+  - intros H Hs p. unfold opened in H. destruct (aopen A) eqn:EL; [|discriminate].
+    destruct Hfs as (a & -> & (_ & _ & _ & Hg) & _). cbn [step]. rewrite Ef. unfold opened. rewrite EL. cbn [negb].
+    rewrite has_params_get, Hg. destruct (asaved A); [reflexivity|contradiction].
+  - intros H. cbn [step]. rewrite Ef, Ec, H. unfold opened.
+    destruct (aopen A); [reflexivity|]. destruct Hfs as (_ & Hc & _). congruence.
+Qed.
+
 End Lemmas.
